@@ -39,6 +39,7 @@ type permProg struct {
 	Stranger bool      `json:"stranger"` // an extra user who is subscribed to nothing
 	Acts     []permAct `json:"acts"`
 	Faults   bool      `json:"faults"`
+	Track    bool      `json:"track,omitempty"` // C05: fold the recorded notifications into per-session permission trackers
 }
 
 var permModes = []string{"", "N", "JRWPS", "JRWPASDO", "JRWPA", "JRWPAS", "JRWPSO", "RWP", "JP", "O", "JRWPASD", "J", "XYZ", "jrwps", "JRWPSD", "JRWPASO"}
@@ -117,6 +118,7 @@ type permStats struct {
 	transfers, refusedOwnerAttacks, requests, refused int
 	actors                                            map[string]bool
 	faultLate                                         int
+	tracked                                           int
 }
 
 func effective(s SubSnap) types.AccessMode { return s.Want & s.Given }
@@ -406,6 +408,7 @@ func runPerm(t *testing.T, sched simrt.Schedule, prog permProg) ([]Violation, Ru
 		out = append(out, cacheVsStore(w, sn, "after configure")...)
 
 		detachedDiverged := map[string]bool{} // "topic/user": stored subscription changed behind the live topic's back
+		everDetached := map[string]bool{}     // same, never forgotten: nobody was notified of that change either
 		div := &divFilter{seen: map[string]bool{}}
 		// topics on which an injected store failure interrupted a multi-write handler: what the topic looks
 		// like after its next load from the store is still a consequence of that failure
@@ -481,6 +484,7 @@ func runPerm(t *testing.T, sched simrt.Schedule, prog permProg) ([]Violation, Ru
 					if sr := w.Disk.Subs[simdbSubKey(e.Topic, e.Actor)]; sr != nil {
 						if pud, ok := ts.PerUser[e.Actor]; ok && (pud.Want != sr.ModeWant || canonJSONBytes(sr.Private) != pud.Private) {
 							detachedDiverged[e.Topic+"/"+e.Actor.UserId()] = true
+							everDetached[e.Topic+"/"+e.Actor.UserId()] = true
 							out = append(out, vio("C08", "detached-set-bypasses-live-topic", "{set} by user %d from a session not attached to %s changed the stored subscription (want %v private %s) while the loaded topic keeps want %v private %s", p.C.User.Idx, e.Topic, sr.ModeWant, canonJSONBytes(sr.Private), pud.Want, pud.Private))
 						}
 					}
@@ -807,6 +811,11 @@ func runPerm(t *testing.T, sched simrt.Schedule, prog permProg) ([]Violation, Ru
 		sn = w.snapshot()
 		out = append(out, relabel(permInvariants(w, sn, "at the end"))...)
 		out = append(out, div.filter(cacheVsStore(w, sn, "at the end"), "settle", detachedDiverged)...)
+		if prog.Track {
+			tv, n := c05Track(w, sn, everDetached)
+			ps.tracked = n
+			out = append(out, tv...)
+		}
 		return out
 	})
 	st.ProgHash = hashOf(prog)
